@@ -25,7 +25,7 @@ OPS = ["view:settings", "view:settings_by_index", "view:raw_settings", "view:raw
        "transform_server", "transform_get_noreq", "transform_post_noreq", "recover_roundtrip", "iter_recover", "mutate_attempt"]
 PROBES = ["op_" + o.replace(":", "_") for o in OPS] + ["real_sample_config", "generated_config", "history_len>=10",
                                                         "consumer_then_observe", "pair_sweep", "pivot_config_without_domains", "sample_constructed_full",
-                                                        "sample_constructed_bare", "companion_observed_first"]
+                                                        "sample_constructed_bare", "companion_observed_first", "damaged_config_views_raise"]
 RULE = ("systematic population: every ordered pair of the 26 operation kinds (view access, settings_map variants, derived "
         "properties, repr, C2Http with each key variant, HttpBeaconClient dry run, profile generation text/dict, "
         "transform/recover/iter_recover_http on decoders built so far, mutation attempts) followed by a final observation, "
@@ -179,8 +179,14 @@ def generate(rng, tier, index):
                           "pipename": "\\\\.\\pipe\\msagent_" + "%02x" % rng.getrandbits(8), "rsa": "rsa1024_a",
                           "domains_field": rng.choice(["zeros", "zeros", "absent"]), "watermark": rng.getrandbits(32),
                           "extra": [e for i, e in enumerate(extra) if e[0] not in [x[0] for x in extra[:i]]]}}
-    return {"world": "H", "config": gen_config(rng, allow_uri_append=rng.random() < 0.3, allow_static_param=rng.random() < 0.5,
-                                              rsa=rng.choice(["rsa1024_a", "rsa2048_a"])), "ops": ops}
+    cfg = gen_config(rng, allow_uri_append=rng.random() < 0.3, allow_static_param=rng.random() < 0.5,
+                     rsa=rng.choice(["rsa1024_a", "rsa2048_a"]))
+    if rng.random() < 0.08:
+        # a damaged configuration: one setting whose pretty function fails (DNS idle address of the wrong length). The pretty
+        # views and everything built on them then raise - every time, the same way, whatever was done before
+        cfg["extra"] = [e for e in cfg.get("extra", []) if e[0] != 19] + [[19, "ptr", hx(bytes(rng.getrandbits(8) for _ in range(rng.choice([3, 5, 16]))))]]
+        cfg["damaged"] = True
+    return {"world": "H", "config": cfg, "ops": ops}
 
 
 # ------------------------------------------------------------------------------------------- operations
@@ -224,7 +230,10 @@ def reference_parts(block) -> dict:
     from dissect.cobaltstrike.beacon import BeaconConfig
     out = {}
     for name, fn in PARTS.items():
-        out[name] = fn(BeaconConfig(block))
+        try:
+            out[name] = fn(BeaconConfig(block))
+        except Exception as e:  # noqa: BLE001 - a damaged configuration: the failure itself is the reference
+            out[name] = f"OBSERVATION-FAILED:{type(e).__name__}:{e}"
     return out
 
 
@@ -436,8 +445,11 @@ def execute(plan: dict) -> Result:
             res.probes["companion_observed_first"] += 1
         twin = new_config()
         twin_snap = snapshot(twin)
-        if twin_snap.startswith("OBSERVATION-FAILED"):
+        damaged = bool((plan.get("config") or {}).get("damaged"))
+        if twin_snap.startswith("OBSERVATION-FAILED") and not damaged:
             raise core.HarnessError(f"cannot observe a brand-new configuration: {twin_snap}")
+        if damaged:
+            res.probes["damaged_config_views_raise"] += 1
         try:
             ref_parts = fresh_ref(plan["sample"], mode) if mode else reference_parts(block)
         except core.HarnessError:
@@ -485,7 +497,7 @@ def execute(plan: dict) -> Result:
                                 _narrow(plan, hist[:i + 1]))
                     break
                 snap = snapshot(shared.bc)
-                if snap.startswith("OBSERVATION-FAILED"):
+                if snap.startswith("OBSERVATION-FAILED") and snap != twin_snap:
                     res.violate(("C14", "observation_fails_after_history", op.split(":")[0]),
                                 f"after {hist[:i + 1]} the configuration can no longer be observed: {snap}", _narrow(plan, hist[:i + 1]))
                     break
@@ -516,8 +528,11 @@ def execute(plan: dict) -> Result:
                             f"a second configuration object over the same bytes (constructed '{other}', looked at "
                             f"{plan['companion']} the history {histories[0][:8]}..) reports {bad[0]} = {now[bad[0]][:200]!r}; a brand-new "
                             f"process reports {want_c[bad[0]][:200]!r}")
-        if mode is None and snapshot(twin) != twin_snap:
-            raise core.HarnessError("the never-used twin changed")
+        if mode is None and not res.violations and snapshot(twin) != twin_snap:
+            # the twin was never used - it was only LOOKED AT, at the start and now
+            res.violate(("C14", "observation_not_repeatable", "damaged" if damaged else "intact"),
+                        "a configuration object that was only observed (all views and derived properties read once at the start "
+                        "of the run) reports something else when observed a second time at the end")
     return res
 
 
